@@ -39,17 +39,19 @@ def widths_for(tier, kind):
     return sorted(set(range(2, 601)) | {1024, 2048, 4095})
 
 
-def widths_for_filter(tier, kind, periods):
+def widths_for_filter(tier, kind, periods, extra_bank=False):
     """Cost bound.  The library sums one term per 2 pi period spanned by the advertised support
     for every bin of every call (order-1 gammatones span 500 - 2500 periods), so the number of
-    widths shrinks with the number of periods; (None, reason) = filter not enumerated."""
+    widths shrinks with the number of periods; None = filter not enumerated.  The banks the
+    thorough tier adds to the C05 design lattice (23 / 40 filters, re-parameterised scales)
+    get the quick width list."""
     if not np.isfinite(periods):
         periods = 0.0  # NaN supports: every call raises at once
     if periods > MAX_PERIODS:
         return None
     if tier == "quick":
         return list(QUICK_WIDTHS) if periods <= 32 else list(FEW_WIDTHS[tier])
-    if periods <= 8:
+    if periods <= 8 and not extra_bank:
         return widths_for(tier, kind)
     return list(QUICK_WIDTHS) if periods <= 64 else list(FEW_WIDTHS[tier])
 
@@ -79,11 +81,12 @@ def _eval_fw(bank, b, tags, i, w, e):
     full = np.asarray(rf[1])
     half = np.asarray(rh[1])
     if full.shape != (w,):
-        return [("shape", dict(method="full"), "full response has shape %r for width %d" % (full.shape, w))], notes
+        return [("shape", {}, "full response has shape %r for width %d" % (full.shape, w))], notes
     for name, a in (("truncated", trnc), ("full", full), ("half", half)):
         if not np.all(np.isfinite(a)):
-            out.append(("nonfinite", dict(method=name),
+            out.append(("nonfinite", {},
                         "%s response of filter %d at width %d has non-finite values" % (name, i, w)))
+            break
     if out:
         return out, {"nonfinite"}
     # --- index ranges
@@ -151,13 +154,17 @@ def _bank(b, tier):
     evals = nontriv = 0
     rate = float(b["sampling_rate"])
     nwidths = 0
+    # max_centered only multiplies the response by a phase factor; the every-width sweep is run on
+    # the causal twin of each gammatone bank
+    extra = b["num_filts"] > 11 or b.get("scaling_function") in c05.EXTRA_SCALES or \
+        bool(b.get("max_centered", False))
     for i in range(bank.num_filts):
         try:
             lo, hi = bank.supports_hz[i]
             periods = (float(hi) - float(lo)) / rate
         except Exception:
             periods = 0.0
-        widths = widths_for_filter(tier, b["name"], periods)
+        widths = widths_for_filter(tier, b["name"], periods, extra_bank=extra)
         if widths is None:
             notes.add("not_enumerated_too_many_periods")
             continue
@@ -214,7 +221,8 @@ def subchecks(tier, seed):
             "symmetry (real), zero negative frequencies (analytic triangular), finiteness. non-trivial = "
             "the rebuilt response has a non-zero bin; trivial bank = constructor raised. Cost bound: a filter "
             "whose supports_hz spans more than %d (quick) / 8, 64 (thorough) periods of the sampling rate gets "
-            "the shorter width lists %r / %r" % (
+            "the shorter width lists %r / %r; banks with more than 11 filters or a re-parameterised scale "
+            "(thorough only) and max_centered gammatone banks use the first of these lists" % (
                 c05.CLASSNAME[kind], len(ws),
                 ",".join(map(str, ws)) if len(ws) < 20 else "%d..%d and %s" % (
                     ws[0], max(x for x in ws if x < 1000), [x for x in ws if x >= 1000]),
